@@ -22,6 +22,7 @@ def main(argv):
             print('unknown argument', a); return 2
     from mc import det, core
     det.scratch_home()
+    core.apply_process_environment()
     mod = importlib.import_module('mc.checks.%s' % prop.lower())
     if variant and not replay:
         return core.variant_child(mod, tier, variant)
